@@ -1,12 +1,132 @@
-import Tpp.Driver.Proto
-/-! Driver slice `Screen`: model answers (`run`) and property oracle on the implementation's answers (`oracle`). -/
+import Tpp.Driver.TermOracle
+import Tpp.Model.Screen
+/-!
+Driver slice `Screen` (C03, C04).
+  `S <bits> ; op ; op …` with ops
+     `cv w h`            a new canvas of that size becomes the current canvas
+     `px x y <element>`  canvas[x][y] = element
+     `rz w h`            canvas.resize
+     `tsz w h`           terminal.set_size (the terminal itself is resized to w x h as well)
+     `dr`                screen.draw(canvas)
+  answer: one segment per `dr`: `<hex> / <state record>`, joined by ` ; ` (`-` when there is no `dr`).
+Oracle configuration as for `T` lines (`W E R Z w h`).
+-/
 namespace Tpp.Driver.Screen
 open Tpp Tpp.Driver
 
-/-- model answer for a case line of this slice; `none` when the kind is not ours -/
-def run (_kind : Char) (_rest : String) : Option String := none
+inductive SOp
+  | cv (w h : Int) | px (x y : Int) (e : Element) | rz (w h : Int) | tsz (w h : Int) | dr
 
-/-- oracle verdict (`ok` / `FAIL <ids> …`) given the case, the configuration prefix and the real answer -/
-def oracle (_kind : Char) (_cfg _rest _real : String) : Option String := none
+def rdSOp : Rd (Option SOp) := do
+  let w ← Rd.word
+  match w with
+  | "cv" => do let a ← Rd.int; let b ← Rd.int; return some (.cv a b)
+  | "px" => do let x ← Rd.int; let y ← Rd.int; let e ← rdElement; return some (.px x y e)
+  | "rz" => do let a ← Rd.int; let b ← Rd.int; return some (.rz a b)
+  | "tsz" => do let a ← Rd.int; let b ← Rd.int; return some (.tsz a b)
+  | "dr" => return some .dr
+  | _ => return none
+
+def parseS (rest : String) : Behaviour × List SOp :=
+  match rest.splitOn ";" with
+  | [] => ({}, [])
+  | h :: ops => (rdBehaviour ((words h).headD "0" |>.toNat?.getD 0), ops.filterMap fun o => (rdSOp.run (words o)).1)
+
+def inCanvas (c : Canvas) (x y : Int) : Bool := decide (0 ≤ x) && decide (x < c.size.width) && decide (0 ≤ y) && decide (y < c.size.height)
+
+def runModel (beh : Behaviour) : List SOp → ScreenState → Canvas → TermState → List String
+  | [], _, _, _ => []
+  | op :: ops, scr, cvs, ts =>
+    match op with
+    | .cv w h => runModel beh ops scr (Canvas.new ⟨w, h⟩) ts
+    | .px x y e => runModel beh ops scr (if inCanvas cvs x y then cvs.set x y e else cvs) ts
+    | .rz w h => runModel beh ops scr (cvs.resize ⟨w, h⟩) ts
+    | .tsz w h => runModel beh ops scr cvs (step beh ts (.setSize ⟨w, h⟩)).1
+    | .dr =>
+      let (scr', dops) := Screen.draw scr cvs
+      let (ts', out) := Tpp.run beh ts dops
+      s!"{hex out} / {showState ts'}" :: runModel beh ops scr' cvs ts'
+
+def run (kind : Char) (rest : String) : Option String :=
+  if kind ≠ 'S' then none else
+  let (beh, ops) := parseS rest
+  let outs := runModel beh ops {} (Canvas.new ⟨0, 0⟩) {}
+  some (if outs.isEmpty then "-" else " ; ".intercalate outs)
+
+-- ---------------------------------------------------------------- oracle
+structure SSt where
+  vt : VT
+  cvs : Canvas := Canvas.new ⟨0, 0⟩
+  drawn : Option Canvas := none         -- the canvas last drawn (specification level)
+  sized : Bool := false                 -- terminal size = canvas size declared
+  fails : List String := []
+  stop : Bool := false
+
+def SSt.fail (s : SSt) (m : String) : SSt := { s with fails := s.fails ++ [m] }
+
+def canvasWF (c : Canvas) : Bool :=
+  (regionCoords ⟨⟨0, 0⟩, c.size⟩).all fun p => (c.get p.1 p.2).wf
+
+/-- cells of the canvas that differ (library element inequality) from the frame the draw is diffed against -/
+def changedCells (base cvs : Canvas) : List (Int × Int) :=
+  (regionCoords ⟨⟨0, 0⟩, cvs.size⟩).filter fun p => !(Element.eq (base.get p.1 p.2) (cvs.get p.1 p.2))
+
+def checkDraw (c : OCfg) (i : Nat) (st : SSt) (bytes : List Byte) : SSt :=
+  let before := st.vt
+  let vt := before.feedAll bytes
+  let cvs := st.cvs
+  let st := { st with vt := vt }
+  let sizeOK := decide (cvs.size.width = (vt.w : Int)) && decide (cvs.size.height = (vt.h : Int))
+  if !sizeOK || !canvasWF cvs then { st with stop := true } else
+  -- C04: which glyphs were transmitted
+  let base := match st.drawn with
+    | some d => if d.size = cvs.size then d else Canvas.new cvs.size
+    | none => Canvas.new cvs.size
+  let expected := changedCells base cvs
+  let new := vt.log.drop before.log.length
+  let st := if st.drawn.isSome && (st.drawn.map (fun d => decide (d = cvs))).getD false && !bytes.isEmpty
+    then st.fail s!"C04@{i} drawing the canvas last drawn wrote {bytes.length} bytes" else st
+  let st := if new.map (fun t => ((t.1 : Int), (t.2.1 : Int))) = expected then st
+    else st.fail s!"C04@{i} transmitted {new.length} glyphs, {expected.length} cells changed (or positions/order differ)"
+  let st := if new.map (·.2.2) = expected.map (fun p => cellOf (cvs.get p.1 p.2)) then st
+    else st.fail s!"C04@{i} C01@{i} transmitted glyphs are not the changed cells' elements"
+  -- C03: the display shows the canvas
+  let bad := (regionCoords ⟨⟨0, 0⟩, cvs.size⟩).filter fun p => vt.cell p.1.toNat p.2.toNat ≠ cellOf (cvs.get p.1 p.2)
+  let brSent := expected.any fun p => p.1 + 1 = cvs.size.width && p.2 + 1 = cvs.size.height
+  let st := if bad.isEmpty then st
+    else
+      let known := c.wrap = .immediate && brSent
+      let tag := if known then " [immediate-wrap bottom-right]" else ""
+      -- after the terminal has scrolled, every later frame of this script is damaged too: stop judging
+      { (st.fail s!"C03@{i} display differs from the canvas in {bad.length} cells, first at {(bad.headD (0,0)).1},{(bad.headD (0,0)).2}{tag}") with stop := known }
+  let st := if vt.malformed then st.fail s!"C03@{i} C01@{i} malformed output" else st
+  { st with drawn := some cvs }
+
+def runOracle (c : OCfg) : Nat → SSt → List SOp → List (List Byte × StateRec) → SSt
+  | _, st, [], _ => st
+  | i, st, op :: ops, answers =>
+    if st.stop then st else
+    match op with
+    | .cv w h => runOracle c (i + 1) { st with cvs := Canvas.new ⟨w, h⟩ } ops answers
+    | .px x y e => runOracle c (i + 1) { st with cvs := if inCanvas st.cvs x y then st.cvs.set x y e else st.cvs } ops answers
+    | .rz w h => runOracle c (i + 1) { st with cvs := st.cvs.resize ⟨w, h⟩ } ops answers
+    | .tsz w h =>
+      if decide (1 ≤ w) && decide (1 ≤ h) then
+        -- declaring the size the terminal already has is not a resize of the terminal
+        let vt' := if st.sized && st.vt.w = w.toNat && st.vt.h = h.toNat then st.vt else resizeVT c st.vt w.toNat h.toNat
+        runOracle c (i + 1) { st with vt := vt', sized := true } ops answers
+      else { st with stop := true }
+    | .dr =>
+      match answers with
+      | [] => st.fail "C03 missing answer"
+      | (bytes, _) :: rest => runOracle c (i + 1) (checkDraw c i st bytes) ops rest
+
+def oracle (kind : Char) (cfg rest real : String) : Option String :=
+  if kind ≠ 'S' then none else
+  let c := parseCfg cfg
+  let (_, ops) := parseS rest
+  if real.trimAscii.toString = "-" then some "ok" else
+  let st := runOracle c 0 { vt := initVT c } ops (splitAnswers real)
+  some (if st.fails.isEmpty then "ok" else "FAIL " ++ " | ".intercalate (st.fails.take 4))
 
 end Tpp.Driver.Screen
